@@ -31,6 +31,19 @@ pub fn crc32(data: &[u8]) -> u32 {
     crc32_update(0, data)
 }
 
+/// Four bytes which, appended to `data`, make the CRC-32 of the whole equal `target` (the CRC register
+/// is run backwards through the table; used to generate contents whose checksum is a chosen value).
+pub fn crc32_forge_suffix(data: &[u8], target: u32) -> [u8; 4] {
+    let t = crc_table();
+    let reg_before = !crc32(data);
+    let mut d = !target;
+    for _ in 0..4 {
+        let j = (0..256usize).find(|&j| (t[j] >> 24) == (d >> 24)).expect("top bytes of the CRC table are a permutation");
+        d = ((d ^ t[j]) << 8) | j as u32;
+    }
+    (d ^ reg_before).to_le_bytes()
+}
+
 // GF(2) matrix helpers for crc32_combine (zlib's algorithm, re-derived)
 fn gf2_times(mat: &[u32; 32], mut vec: u32) -> u32 {
     let mut sum = 0;
